@@ -8,8 +8,11 @@ CONSTANTS
   AcceptTopBit = FALSE
   LimitPerFrame = TRUE
   PongEmpty = FALSE
+  Compress = {FALSE}
+  Rsv1Shadows = FALSE
+  Rsv1Anywhere = FALSE
   BufSizes = {0}
   CtlNeedsBuffer = FALSE
-INVARIANTS TypeOk LimitOk ProtocolClose PongOk NoTopBitFrame Whole NoSpontaneousFailure
+INVARIANTS TypeOk LimitOk ProtocolClose PongOk NoTopBitFrame Whole NoSpontaneousFailure ReservedBitsOk
 PROPERTIES Sticky CutDeliversNothing
 CHECK_DEADLOCK FALSE
